@@ -20,7 +20,7 @@ import numpy as np
 import core
 import gen
 
-PROOF_MODULES = ["UnytProofs.C18", "UnytProofs.C18Reuse"]
+PROOF_MODULES = ["UnytProofs.C18", "UnytProofs.C18Equiv", "UnytProofs.C18Reuse"]
 HARNESS = os.path.dirname(os.path.abspath(__file__))
 PLUGINS = ("c18", "c17_dtype", "c09_equiv", "c01_ufuncs", "c04_ufuncs", "c10_systems")
 
@@ -674,10 +674,11 @@ WITNESSES = [
     ("simplify_counterexample", "conv",
      dict(route="units.simplify", unit="cm/m", target="m", dtype="float64", shape="1d", ro=False, fault="valid"),
      "documented-copying|Unit.simplify|mutates-self"),
-    ("convert_to_equivalent_diverges_counterexample", "conv",
+    # fixed by db741b8 (post-multiplication on the raw buffer): must produce NO finding any more
+    ("convert_to_equivalent_raw_returns", "conv",
      dict(route="convert_to_equivalent", unit="K*cm/angstrom", target="J", equivalence="thermal", kwargs={}, dtype="float64",
           shape="1d", ro=False, fault="reducible-unit"),
-     "inplace|convert_to_equivalent|reducible-unit|float|raised-RecursionError|numbers"),
+     None),
     ("offset_multiply_counterexample", "ufunc",
      dict(ufunc="multiply", form="iop", a=_un("degC"), b=dict(kind="pyscalar", dtype="float64"), fault="offset-operand",
           rule="_multiply_units", nin=2),
@@ -685,10 +686,10 @@ WITNESSES = [
     ("int_out_retyped_counterexample", "ufunc",
      dict(ufunc="add", form="out-self", a=_un("m", "int64"), b=_un("s", "int64"), fault="incommensurable", rule="_preserve_units", nin=2),
      "ufunc|out=|int-retyped-on-failure"),
-    ("inplace_rescale_diverges_counterexample", "ufunc",
+    ("raw_rescale_returns", "ufunc",
      dict(ufunc="multiply", form="iop", a=_un("cm/m"), b=dict(kind="pyscalar", dtype="float64"), fault="reducible-unit",
           rule="_multiply_units", nin=2),
-     "ufunc|_multiply_units|out=|reducible-unit|raised-RecursionError|numbers"),
+     None),
 ]
 
 
@@ -698,15 +699,17 @@ def run_witnesses(chk):
         if sec == "conv":
             obs = V.run_case(sp)
             found = V.judge(sp, obs)
-            snippet = V.replay_snippet(sp, key, HARNESS)
         else:
             obs = U.run_case(sp)
             found = U.judge(sp, obs, sp["rule"])
-            snippet = U.replay_snippet(sp, key, sp["rule"], HARNESS)
         keys = [k for k, _ in found]
         for k, what in found:
-            chk.fail(k, what, {"python": snippet if k == key else snippet.replace(repr(key), repr(k)), "spec": sp, "theorem": thm})
-        if key not in keys:
+            sn = (V.replay_snippet(sp, k, HARNESS) if sec == "conv" else U.replay_snippet(sp, k, sp["rule"], HARNESS))
+            chk.fail(k, what, {"python": sn, "spec": sp, "theorem": thm})
+        if key is None:
+            if obs["exc"] is not None:
+                chk.disagree("witness", f"theorem {thm} says the call returns; on the real code it raises {obs['exc']}")
+        elif key not in keys:
             chk.disagree("witness", f"the witness of theorem {thm} no longer fails on the real code (expected {key}, got {keys}; raised {obs['exc']})")
 
 
